@@ -526,6 +526,40 @@ async fn user_separation_udp(c: &Creds, g: &mut Gen, findings: &mut Vec<(String,
     tokio::time::sleep(Duration::from_millis(50)).await;
     let _ = a.send_to(&mk(&ka, sid_a, 3, b"from-user-a-2"), server_addr()).await;
     tokio::time::sleep(Duration::from_millis(100)).await;
+    // B presents session ids *related* to A's - A's id combined with what B can read off the wire or knows (the identity
+    // hashes of both users, halves and byte orders of them): a server that folds the user into its session key, or compares
+    // only part of it, may put B's datagram into A's association. B's datagrams may be relayed (B is a registered user),
+    // but through an association of their own, and nothing of them may come back to A.
+    {
+        let (ha, hb) = (refimpl::ss2022::psk_hash(&ka), refimpl::ss2022::psk_hash(&kb));
+        let words = |h: &[u8; 16]| [u64::from_be_bytes(h[..8].try_into().unwrap()), u64::from_be_bytes(h[8..].try_into().unwrap()), u64::from_le_bytes(h[..8].try_into().unwrap()), u64::from_le_bytes(h[8..].try_into().unwrap())];
+        let mut related: Vec<u64> = vec![sid_a.swap_bytes(), !sid_a, sid_a.rotate_left(32), sid_a.wrapping_add(1), sid_a ^ 1, sid_a & 0xffff_ffff, sid_a >> 32];
+        for (x, y) in words(&ha).into_iter().zip(words(&hb)) {
+            related.extend([sid_a ^ x, sid_a ^ y, sid_a ^ x ^ y, sid_a.wrapping_add(x), sid_a.wrapping_add(y), sid_a.wrapping_sub(x), sid_a.wrapping_sub(y), sid_a.wrapping_add(x).wrapping_sub(y), sid_a.wrapping_sub(x).wrapping_add(y)]);
+        }
+        related.retain(|r| *r != sid_a);
+        let marker = |k: usize| 100 + k;
+        for (k, r) in related.iter().enumerate() {
+            let mut payload = b"from-b-related-session-id".to_vec();
+            payload.resize(marker(k), b'.');
+            let _ = b.send_to(&mk(&kb, *r, 4 + k as u64, &payload), server_addr()).await;
+            tokio::time::sleep(Duration::from_millis(10)).await;
+        }
+        tokio::time::sleep(Duration::from_millis(100)).await;
+        let (from_a, shared): (Vec<SocketAddr>, Vec<usize>) = world::with(|w| {
+            let to_target: Vec<_> = w.udp_sends.iter().filter(|s| s.node == rt::NODE_SERVER && s.to == target_sock()).collect();
+            let from_a: Vec<SocketAddr> = to_target.iter().filter(|s| s.len == 13).map(|s| s.from).collect();
+            let shared = (0..related.len()).filter(|k| to_target.iter().any(|s| s.len == marker(*k) && from_a.contains(&s.from))).collect();
+            (from_a, shared)
+        });
+        if let Some(k) = shared.first() {
+            findings.push((
+                "datagram-rides-on-another-users-association".into(),
+                format!("user B's datagram with session id {:#x} (user A's session is {sid_a:#x}; related id number {k}) left the server through the socket of user A's association {from_a:?}", related[*k]),
+            ));
+            return;
+        }
+    }
     // B claims to be A: on a session id B has just used under its own identity (so that whatever the server remembers
     // about that session was made with B's key), and on a fresh one, B sends a datagram whose identity header names A
     // while the body is sealed with B's key. Nothing of it may reach the target.
@@ -555,6 +589,12 @@ async fn user_separation_udp(c: &Creds, g: &mut Gen, findings: &mut Vec<(String,
     for (sock, mine, other, who) in [(&a, &ka, &kb, "A"), (&b, &kb, &ka, "B")] {
         while let Ok(Ok((n, _))) = tokio::time::timeout(Duration::from_millis(5), sock.recv_from(&mut buf)).await {
             let pkt = &buf[..n];
+            if let Ok((body, _, _, _)) = refimpl::ss2022::udp_open_aes(&c.cipher, mine, &[mine.clone()], 0, pkt, true) {
+                if who == "A" && body.payload.starts_with(b"reply:from-b-related") {
+                    findings.push(("reply-delivered-to-another-user".into(), "the answer to a datagram of user B (sent under B's key, with a session id related to user A's) was sealed under user A's key and delivered to user A".into()));
+                    return;
+                }
+            }
             if !opens(mine, pkt) {
                 let under_other = opens(other, pkt);
                 findings.push((
@@ -607,7 +647,70 @@ fn malformed_authenticated(c: &Creds, g: &mut Gen, which: u64) -> (String, Vec<u
             let mut r = refimpl::vmess::Request { body_iv: [1; 16], body_key: [2; 16], resp_auth: 3, options: 1 | 4 | 8 | 16, security: refimpl::vmess::SEC_AES128GCM, command: 1, addr: addr.clone(), padding: 2 };
             g.fill(&mut r.body_iv);
             g.fill(&mut r.body_key);
+            // well-sealed header, correct first chunk, then a chunk that is wrong inside (size field below the padding, below
+            // padding + tag, zero, far beyond what follows) - under every length encoding (plain, masked, authenticated)
+            let sel = if which % 3 == 2 { g.below(20) } else { 99 };
+            if sel < 12 {
+                let variant = sel % 6;
+                r.options = *g.pick(&[1u8, 1 | 4, 1 | 4 | 8, 1 | 8, 1 | 4 | 8 | 16, 1 | 8 | 16]);
+                r.security = *g.pick(&[refimpl::vmess::SEC_AES128GCM, refimpl::vmess::SEC_CHACHA20]);
+                let h = refimpl::vmess::header_bytes(&r);
+                let mut rnd = [0u8; 12];
+                g.fill(&mut rnd);
+                let mut w = refimpl::vmess::seal_header(&c.client_cmd_key, now as i64, rnd[..4].try_into().unwrap(), rnd[4..].try_into().unwrap(), &h);
+                let mut body = refimpl::vmess::request_body(&r);
+                w.extend(body.write(b"first-chunk-is-fine", 1900));
+                let junk = g.bytes(40);
+                let (name, chunk) = match variant {
+                    0 => ("vmess-chunk-size-below-padding", body.encode_chunk_declared(|p| p.saturating_sub(1) as u16, &junk)),
+                    1 => ("vmess-chunk-size-below-padding-plus-tag", body.encode_chunk_declared(|p| (p + 7) as u16, &junk)),
+                    2 => ("vmess-chunk-size-zero", body.encode_chunk_declared(|_| 0, &junk)),
+                    3 => ("vmess-chunk-size-one", body.encode_chunk_declared(|_| 1, &junk)),
+                    4 => ("vmess-chunk-size-equals-padding", body.encode_chunk_declared(|p| p as u16, &junk)),
+                    _ => ("vmess-chunk-size-beyond-stream", body.encode_chunk_declared(|_| 0xffff, &junk)),
+                };
+                w.extend(chunk);
+                w.extend(body.write(b"a-chunk-after-the-malformed-one", 1900));
+                return (name.to_owned(), w);
+            }
             let mut h = refimpl::vmess::header_bytes(&r);
+            let hv = if sel < 20 { 8 + g.below(6) } else { 0 };
+            if hv >= 8 {
+                // odd but well-formed option masks and security values
+                let name = match hv {
+                    8 => {
+                        r.options = 0;
+                        "vmess-option-mask-zero"
+                    }
+                    9 => {
+                        r.options = 16;
+                        "vmess-authenticated-length-without-chunk-stream"
+                    }
+                    10 => {
+                        r.options = 0xff;
+                        "vmess-option-mask-all-ones"
+                    }
+                    11 => {
+                        r.security = *g.pick(&[0u8, 1, 2, 7, 15]);
+                        "vmess-unknown-security"
+                    }
+                    12 => {
+                        r.security = 5;
+                        "vmess-security-none"
+                    }
+                    _ => {
+                        r.security = 6;
+                        "vmess-security-zero"
+                    }
+                };
+                let h = refimpl::vmess::header_bytes(&r);
+                let mut rnd = [0u8; 12];
+                g.fill(&mut rnd);
+                let mut w = refimpl::vmess::seal_header(&c.client_cmd_key, now as i64, rnd[..4].try_into().unwrap(), rnd[4..].try_into().unwrap(), &h);
+                let mut body = refimpl::vmess::Body::new(refimpl::vmess::SEC_AES128GCM, r.options | 1, &r.body_key, &r.body_iv, &r.body_key, &r.body_iv);
+                w.extend(body.write(b"payload-after-an-odd-header", 1900));
+                return (name.to_owned(), w);
+            }
             let name = match which % 8 {
                 0 => {
                     h[40] = 9; // address type
@@ -903,7 +1006,21 @@ pub fn execute_c07(plan: &Plan) -> Outcome {
                     }
                     2 => {
                         // authenticated, malformed inside
-                        if is_2022(&c.cipher) {
+                        if is_2022(&c.cipher) && g.chance(50) {
+                            // raw bodies: padding length beyond the datagram, nothing after the fixed part, address cut short
+                            let mut body = vec![0u8];
+                            body.extend_from_slice(&unix_now().to_be_bytes());
+                            match g.below(5) {
+                                0 => body.extend_from_slice(&[0xff, 0xff, 1, 2, 3]),
+                                1 => body.extend_from_slice(&[0, 9, 1]),
+                                2 => body.extend_from_slice(&[0, 0]),
+                                3 => body.extend_from_slice(&[0, 0, 3, 200, b'a']),
+                                _ => body.extend_from_slice(&[0, 2, 0, 0, 1, 127]),
+                            }
+                            bump("malformed_2022-datagram-raw-body", 1);
+                            let sid = g.next();
+                            if refimpl::ss2022::is_aes(&c.cipher) { refimpl::ss2022::udp_packet_aes_raw(&c.cipher, &c.client_keys, sid, 1, &body) } else { refimpl::ss2022::udp_packet_chacha_raw(&c.cipher, &c.psk, &[9u8; 24], sid, 1, &body) }
+                        } else if is_2022(&c.cipher) {
                             let bad = g.pick(&[Addr::Name(vec![0xff, 0xfe], 1), Addr::Name(vec![], 1)]).clone();
                             let mut body = refimpl::ss2022::UdpBody { session_id: g.next(), packet_id: 1, stream_type: 0, timestamp: unix_now(), client_session_id: None, padding: 0, addr: bad, payload: vec![] };
                             if g.chance(50) {
